@@ -149,6 +149,36 @@ func (p *c10) Run(tier string, seed int64, idx int) core.CaseResult {
 		res.Ev("many_statement_texts", 1)
 		c10Compare(big, yang.Render(big, &yang.Layout{R: r, Quote: 4, Boundary: -1}), "random-many", &res)
 	}
+	if idx == 1 {
+		// the same name, and the name followed by one or two digits, as the argument of every kind of statement
+		// that takes a name: each statement keeps the argument written on it, whatever other statements say
+		nm := yang.S("module", "b5", yang.S("namespace", "urn:b5"), yang.S("prefix", "b"))
+		var sfx []string
+		sfx = append(sfx, "")
+		for i := 0; i < 20; i++ {
+			sfx = append(sfx, fmt.Sprint(i))
+		}
+		str := func() *yang.Stmt { return yang.S("type", "string") }
+		for _, x := range sfx {
+			n := "b" + x
+			nm.Add(yang.S("import", n, yang.S("prefix", n)))
+		}
+		for _, x := range sfx {
+			n := "b" + x
+			nm.Add(yang.S("b:ext", n),
+				yang.S("typedef", n, str()), yang.S("feature", n), yang.S("identity", n, yang.S("base", n)), yang.S("extension", n, yang.S("argument", n)),
+				yang.S("grouping", n, yang.S("leaf", n, str())),
+				yang.S("container", n, yang.S("presence", n), yang.S("must", n), yang.S("when", n), yang.S("if-feature", n), yang.S("uses", n),
+					yang.S("leaf", n, yang.S("type", n), yang.S("default", n), yang.S("units", n), yang.S("b:ext", n)),
+					yang.S("leaf-list", n, str()),
+					yang.S("list", n, yang.S("key", n), yang.S("unique", n), yang.S("leaf", n, str())),
+					yang.S("choice", n, yang.S("case", n, yang.S("anyxml", n)))),
+				yang.S("rpc", n), yang.S("notification", n, yang.S("leaf", n, str())))
+		}
+		res.Ev("texts_with_one_name_on_every_kind_of_statement", 1)
+		c10Compare(nm, yang.Render(nm, yang.CanonicalLayout()), "names-canonical", &res)
+		c10Compare(nm, yang.Render(nm, &yang.Layout{R: r, Quote: 1, Trivia: 1, Boundary: -1}), "random-names", &res)
+	}
 	// canonical
 	lay := yang.CanonicalLayout()
 	text := yang.Render(root, lay)
